@@ -74,6 +74,19 @@ func isKnown(prop, sig string) bool {
 	return false
 }
 
+// knownSkip reports whether sig is a known finding and, if so, counts the hit: the
+// caller then keeps checking the rest of the case instead of failing it.
+func knownSkip(prop, sig string) bool {
+	if !isKnown(prop, sig) {
+		return false
+	}
+	st := getStats(prop)
+	st.mu.Lock()
+	st.KnownHits[sig]++
+	st.mu.Unlock()
+	return true
+}
+
 // Stats collects what a run covered; written as JSON for the driver to merge.
 type Stats struct {
 	mu            sync.Mutex
